@@ -320,12 +320,75 @@ def run(tier, seed, only=None):
         run_obligations(rep, "pipeline vs reference [%s]" % cn, obs, timeout, replay=rp, levels=(1, 2), relate=[],
                         family=lambda ob: "VLM: " + ob.meta["family"], fixed={"alpha": (3.0, -3.0), "beta": (2.0, -2.0), "v": 10.0, "rho": 1.1}, nominal=nominal)
     aeropoint_level(rep, tier, timeout)
+    solve_history(rep, tier, timeout)
     rep.stubs.add("vortex kernels -> uninterpreted functions on both sides (kernel == textbook formula, antisymmetry and derivative contracts are separate obligations)")
     rep.bounds = {"cases": [c[0] for c in cfgs]}
     rep.assumptions = ["real arithmetic", "LAPACK LU accuracy not modelled: the equation being solved is compared", "rotational onset velocity omega x (p - cg) as the code defines it",
                        "non-degenerate panels (non-zero diagonal cross product), evaluation points off the vortex lines"]
     return rep.finish("C05: AIC, right-hand side, tangency residual and panel forces of the real pipeline == an independently written panel/"
                       "corner Biot-Savart model, entry by entry; kernel == textbook formula as separate lemmas")
+
+
+def solve_history(rep, tier, timeout):
+    """The strengths `SolveMatrix.solve_nonlinear` returns satisfy the system of *this* call, whatever the same instance
+    solved before: two calls in a row on one instance (earlier matrix / right-hand side / starting strengths all symbolic, so
+    "the matrix did not change" and "only the right-hand side changed" are paths of the same run); the factorisation is the
+    contract stub (a solve returns x with A x = b for the matrix that was factorised)."""
+    from symoas import npproxy
+
+    ss = [K.surface(2, 3, False)]
+    probe = SymComp("aerodynamics.solve_matrix", "SolveMatrix", surfaces=ss)
+    rep.encode(type(probe.comp))
+    n = probe.comp.system_size
+    m1, r1 = symarray("mtx_before", (n, n)), symarray("rhs_before", (n,))
+    m2, r2 = symarray("mtx", (n, n)), symarray("rhs", (n,))
+    g0 = symarray("circulations_start", (n,))
+
+    def fn():
+        npproxy.LU_LOG.clear()
+        comp = SymComp("aerodynamics.solve_matrix", "SolveMatrix", surfaces=ss).comp  # a fresh instance per path
+        out = VecStore({"circulations": g0.copy()})
+        comp.solve_nonlinear(VecStore({"mtx": m1.copy(), "rhs": r1.copy()}), out)
+        comp.solve_nonlinear(VecStore({"mtx": m2.copy(), "rhs": r2.copy()}), out)
+        return {"g": np.array(out["circulations"], dtype=object).copy(), "hyp": npproxy.lu_hypotheses()}
+
+    with symbolic_numpy():
+        paths = execute.explore(fn, max_paths=16)
+    obs = []
+    for pi, p in enumerate(paths):
+        g = p.result["g"]
+        for i in range(n):
+            obs.append(oblig.Ob("second solve row %d path %s" % (i, p.label()), lhs=sum((m2[i, j] * S(g[j]) for j in range(n)), ZERO), rhs=r2[i],
+                                assume=list(p.result["hyp"]) + p.conds,
+                                meta={"family": "the strengths returned cancel the normal velocity of the current system, whatever was solved before"}))
+
+    def rp(ob, env):
+        import openmdao.api as om
+        from openaerostruct.aerodynamics.solve_matrix import SolveMatrix
+
+        rng = np.random.default_rng(5)
+        A = rng.standard_normal((n, n)) + n * np.eye(n)
+        B = rng.standard_normal((n, n)) + n * np.eye(n)
+        worst, msg = 0.0, ""
+        # (same matrix, new right-hand side), (new matrix, same right-hand side), (both new), (nothing new)
+        b0 = rng.standard_normal(n)
+        for lab, (Ma, ba), (Mb, bb) in (("same matrix, new right-hand side", (A, b0), (A, rng.standard_normal(n))), ("new matrix, same right-hand side", (A, b0), (B, b0)),
+                                          ("both new", (A, b0), (B, rng.standard_normal(n))), ("nothing new", (A, b0), (A, b0))):
+            prob = om.Problem(reports=False)
+            prob.model.add_subsystem("sm", SolveMatrix(surfaces=ss), promotes=["*"])
+            prob.setup()
+            for M_, b_ in ((Ma, ba), (Mb, bb)):
+                prob.set_val("mtx", M_)
+                prob.set_val("rhs", b_)
+                prob.run_model()
+            e = float(np.abs(Mb.dot(np.array(prob.get_val("circulations"))) - bb).max())
+            if e > worst:
+                worst, msg = e, "real SolveMatrix run twice in one Problem (%s): |mtx Gamma - rhs| = %.3g after the second run" % (lab, e)
+        return worst > 1e-9, msg or "second run of the real SolveMatrix solves its own system in all four histories"
+
+    run_obligations(rep, "SolveMatrix second solve [n=%d, %d path%s]" % (n, len(paths), "" if len(paths) == 1 else "s"), obs, timeout, replay=rp,
+                    family=lambda ob: "SolveMatrix: " + ob.meta["family"])
+    rep.stubs.add("LU factorisation -> contract stub (a solve returns x with A x = b for the factorised A)")
 
 
 def aeropoint_level(rep, tier, timeout):
